@@ -508,7 +508,7 @@ func (r *Recomposer) recomp(v any, rv reflect.Value) {
 		reflect.Uint, reflect.Uint8, reflect.Uint16, reflect.Uint32, reflect.Uint64,
 		reflect.Float32, reflect.Float64,
 		reflect.String:
-		rv.Set(reflect.ValueOf(v).Convert(rv.Type()))
+		r.setValue(v, rv, nil)
 
 	default:
 		panic(fmt.Errorf("can not convert (%T)%v to a %s", v, v, rv.Type()))
